@@ -265,7 +265,7 @@ func CompactJSON(input, output []byte) []byte {
 			// Skip over whitespace.
 			continue
 		}
-		if c == '-' && input[i] == '0' {
+		if c == '-' && isNegativeZero(input, i) {
 			// Negative 0 is changed to '0', skip the '-'.
 			continue
 		}
@@ -301,6 +301,24 @@ func CompactJSON(input, output []byte) []byte {
 		}
 	}
 	return output
+}
+
+// isNegativeZero returns true if the '-' just before index starts the number
+// "-0": the sign of "-0.5", "-0e1" or of an exponent ("1e-05") must be kept.
+func isNegativeZero(input []byte, index int) bool {
+	if index >= len(input) || input[index] != '0' {
+		return false
+	}
+	if index >= 2 && (input[index-2] == 'e' || input[index-2] == 'E') {
+		return false
+	}
+	if index+1 < len(input) {
+		switch input[index+1] {
+		case '.', 'e', 'E':
+			return false
+		}
+	}
+	return true
 }
 
 // compactUnicodeEscape unpacks a 4 byte unicode escape starting at index.
